@@ -1,3 +1,159 @@
 #!/usr/bin/env python3
+"""Content-hash cached build of the harness drivers against /repo's CURRENT working tree.
+
+  python3 tools/build.py --all          build every target (setup_cmd), parse every spec with SANY
+  python3 tools/build.py t1 t2 ...      build the named targets (used by check.py)
+
+Objects land in /verif/.cache/build/<hash>/<target>; <hash> covers every file under
+/repo/include/Spectra and /verif/harness plus the compiler flags, so an edited source tree is
+always rebuilt and an unchanged one is never rebuilt.  Nothing under /tmp is needed afterwards.
+"""
+import hashlib
+import os
+import subprocess
 import sys
-sys.exit(0)
+import time
+from concurrent.futures import ThreadPoolExecutor
+
+ROOT = os.path.dirname(os.path.dirname(os.path.abspath(__file__)))
+REPO = os.environ.get("VERIF_REPO", "/repo")
+CACHE = os.path.join(ROOT, ".cache")
+HARNESS = os.path.join(ROOT, "harness")
+CXX = os.environ.get("CXX", "g++")
+BASE_FLAGS = ["-std=c++11", "-O1", "-DSPECTRA_VERIF", "-I" + os.path.join(REPO, "include"), "-I/usr/include/eigen3",
+              "-I" + HARNESS, "-w"]
+
+# target -> (source, extra flags, extra link flags)
+TARGETS = {}
+for fam in ("sym", "gen", "geig"):
+    for code, t in ((1, "f"), (2, "d"), (3, "l")):
+        TARGETS["drv_ir_%s_%s" % (fam, t)] = ("drv_ir_%s.cpp" % fam, ["-DVH_ONLY=%d" % code], [])
+TARGETS["drv_fn"] = ("drv_fn.cpp", [], [])
+TARGETS["drv_kernels"] = ("drv_kernels.cpp", [], [])
+TARGETS["drv_bkldlt"] = ("drv_bkldlt.cpp", [], [])
+TARGETS["drv_matop"] = ("drv_matop.cpp", [], [])
+TARGETS["drv_aux"] = ("drv_aux.cpp", [], [])
+TARGETS["drv_krylov"] = ("drv_krylov.cpp", [], [])
+TARGETS["drv_mt"] = ("drv_mt.cpp", ["-pthread"], ["-pthread"])
+# sanitizer variants (thorough tiers only)
+TARGETS["drv_ir_sym_d_asan"] = ("drv_ir_sym.cpp", ["-DVH_ONLY=2", "-fsanitize=address,undefined", "-fno-omit-frame-pointer", "-g"], ["-fsanitize=address,undefined"])
+TARGETS["drv_ir_gen_d_asan"] = ("drv_ir_gen.cpp", ["-DVH_ONLY=2", "-fsanitize=address,undefined", "-fno-omit-frame-pointer", "-g"], ["-fsanitize=address,undefined"])
+TARGETS["drv_mt_tsan"] = ("drv_mt.cpp", ["-pthread", "-fsanitize=thread", "-g"], ["-pthread", "-fsanitize=thread"])
+
+
+def tree_hash():
+    h = hashlib.sha256()
+    for base in (os.path.join(REPO, "include", "Spectra"), HARNESS):
+        for dp, dn, fn in sorted(os.walk(base)):
+            dn.sort()
+            for f in sorted(fn):
+                p = os.path.join(dp, f)
+                h.update(p.encode())
+                with open(p, "rb") as fh:
+                    h.update(fh.read())
+    h.update(" ".join(BASE_FLAGS).encode())
+    return h.hexdigest()[:20]
+
+
+_HASH = None
+
+
+def build_dir():
+    global _HASH
+    if _HASH is None:
+        _HASH = tree_hash()
+    d = os.path.join(CACHE, "build", _HASH)
+    os.makedirs(d, exist_ok=True)
+    return d
+
+
+def target_path(name):
+    return os.path.join(build_dir(), name)
+
+
+def build_one(name):
+    src, flags, lflags = TARGETS[name]
+    srcp = os.path.join(HARNESS, src)
+    outp = target_path(name)
+    if not os.path.exists(srcp):
+        return name, None, "missing source " + src
+    if os.path.exists(outp):
+        return name, outp, "cached"
+    tmp = outp + ".tmp%d" % os.getpid()
+    cmd = [CXX] + BASE_FLAGS + flags + [srcp, "-o", tmp] + lflags
+    t0 = time.time()
+    p = subprocess.run(cmd, stdout=subprocess.PIPE, stderr=subprocess.STDOUT, universal_newlines=True)
+    if p.returncode != 0:
+        if os.path.exists(tmp):
+            os.unlink(tmp)
+        log = os.path.join(build_dir(), name + ".log")
+        with open(log, "w") as fh:
+            fh.write(" ".join(cmd) + "\n" + p.stdout)
+        return name, None, "compile failed, see %s\n%s" % (log, p.stdout[-3000:])
+    os.replace(tmp, outp)
+    return name, outp, "built in %.0fs" % (time.time() - t0)
+
+
+def build(names, jobs=16, quiet=False):
+    """Build the named targets in parallel; returns {name: path}; raises on failure."""
+    prune()
+    res = {}
+    errs = []
+    with ThreadPoolExecutor(max_workers=jobs) as ex:
+        for name, path, msg in ex.map(build_one, names):
+            if not quiet:
+                print("[build] %-22s %s" % (name, msg.split("\n")[0]), flush=True)
+            if path is None:
+                errs.append((name, msg))
+            res[name] = path
+    if errs:
+        raise RuntimeError("build failed: " + "; ".join("%s: %s" % e for e in errs))
+    return res
+
+
+def prune(keep=3):
+    """Keep only the most recent build directories (disk is limited)."""
+    b = os.path.join(CACHE, "build")
+    if not os.path.isdir(b):
+        return
+    ds = sorted((os.path.getmtime(os.path.join(b, d)), d) for d in os.listdir(b))
+    cur = os.path.basename(build_dir())
+    old = [d for _, d in ds if d != cur]
+    for d in old[:-keep] if keep else old:
+        subprocess.run(["rm", "-rf", os.path.join(b, d)])
+
+
+def sany_all():
+    spec = os.path.join(ROOT, "spec")
+    bad = []
+    for f in sorted(os.listdir(spec)):
+        if f.endswith(".tla"):
+            p = subprocess.run(["tla-sany", f], cwd=spec, stdout=subprocess.PIPE, stderr=subprocess.STDOUT, universal_newlines=True)
+            ok = p.returncode == 0 and "Semantic errors" not in p.stdout and "***Parse Error***" not in p.stdout and "Fatal errors" not in p.stdout
+            print("[sany]  %-22s %s" % (f, "ok" if ok else "FAILED"), flush=True)
+            if not ok:
+                bad.append(f)
+    return bad
+
+
+def main():
+    args = sys.argv[1:]
+    if not args or args[0] == "--all":
+        names = [n for n in TARGETS if not n.endswith("san") and os.path.exists(os.path.join(HARNESS, TARGETS[n][0]))]
+        try:
+            build(names)
+        except RuntimeError as e:
+            print(e)
+            return 2
+        bad = sany_all()
+        return 2 if bad else 0
+    try:
+        build(args)
+    except RuntimeError as e:
+        print(e)
+        return 2
+    return 0
+
+
+if __name__ == "__main__":
+    sys.exit(main())
